@@ -27,6 +27,11 @@ struct World::TState
     std::map<int64_t, PL> lists;
     std::map<int64_t, std::vector<int64_t>> order;  // parent -> ordered children
     std::map<int64_t, std::vector<int64_t>> ents;   // list -> ordered track ids
+    struct Ent
+    {
+        int64_t id = 0, mref = 0;
+    };
+    std::map<std::pair<int64_t, int64_t>, Ent> entrow;  // (list, track) -> entity row as written
     int range = 0;  // 0: 2.18.0, 1: 2.20.1-2.20.2, 2: >= 2.20.3
     std::string uuid;
     uint64_t rowuniq = 0;
